@@ -389,6 +389,8 @@ M("C02", "fcidump-strict-pair-order", F + "fcidump.py", r"\(i0 \* \(i0 \+ 1\)\) 
 M("C02", "fcidump-inner-loop-one-short", F + "fcidump.py", r"                for i3 in range\(i2 \+ 1\):", "                for i3 in range(i2):", "C02-R22")
 M("C02", "fcidump-writer-index-order", F + "fcidump.py", r"value = two_mo\[i0, i2, i1, i3\]", "value = two_mo[i0, i1, i2, i3]", "C02-R22")
 
+M("C03", "wfn-regrouping-permutation-stride", F + "wfn.py", r"permutation\[ibasis \+ irep \* ncart \+ ifn\] = ibasis \+ irep \+ i \* ncon", "permutation[ibasis + irep * ncart + ifn] = ibasis + irep * ncart + i", "C03-R21")
+
 # ----------------------------------------------------------------------------- additions (fourth round, batch 6)
 M("C07", "extxyz-title-parsed-after-putback", F + "extxyz.py", r"    atom_columns, title_data = _parse_title\(title_line, lit\)\n    lit\.back\(title_line\)\n    lit\.back\(atom_line\)\n", "    lit.back(title_line)\n    lit.back(atom_line)\n    atom_columns, title_data = _parse_title(title_line, lit)\n", "C07-R8")
 M("C07", "mol2-atom-loop-skips-blank-lines", F + "mol2.py", r"(    for i in range\(natoms\):\n        words = next\(lit\)\.split\(\)\n)", "\\1        if not words:\n            continue\n", "C07-R9")
